@@ -1,7 +1,7 @@
 META = {
     "bounds": "prefix arithmetic: all 2^32 IPv4 words / four symbolic IPv6 words, all prefix lengths 0..65535; text: IPv4 text lengths {7,15}, "
               "IPv6 text lengths {2,3,39,45}, all ports, all addresses, output buffer sizes 0..TLEN+10 (quick: a subset) and 64",
-    "outside": "that glibc's inet_ntop emits dotted quad / RFC 5952 and what inet_pton accepts (libc is outside the repository); AF_UNIX paths; "
+    "outside": "that glibc's inet_ntop emits dotted quad / RFC 5952 and what inet_pton accepts (libc is outside the repository); AF_UNIX paths; text lengths other than the listed ones; "
                "parser behaviour on arbitrary text beyond 'text not produced by the formatter for this family is rejected by the stubbed inet_pton'",
     "assumptions": ["inet_ntop(af,a) = writes a solver-chosen NUL-terminated string of TLEN characters over the family's alphabet, ENOSPC when size < TLEN+1",
                     "inet_pton(af,s) = 1 exactly for the string produced for that family, returning the address; 0 otherwise",
@@ -37,7 +37,8 @@ def jobs(tier):
                                 "defs": {"AF": af, "TLEN": tl, "BS": bs, "MODE": 1, "NL": nl, "NT": nt}, "unwind": max(tl + 8, 19), "solver": "cadical",
                                 "shape": "AF_INET%s text %d chars, sa_addr_to_str buffer %d, parse with %d leading / %d trailing decoration chars" % ("6" if af == 6 else "", tl, bs, nl, nt),
                                 "desc": "sa_addr_to_str text/sizes/no overrun; sa_addr_from_str accepts decorated text, rejects what libc rejects"})
-            out.append({"name": "net-af%d-t%d" % (af, tl), "src": "text.c", "defs": {"AF": af, "TLEN": tl, "BS": 64, "MODE": 2}, "unwind": max(tl + 12, 19),
-                        "solver": "cadical", "shape": "addr/len text, addr %d chars, every prefix length" % tl,
+            for pd in ((1, 2) if af == 4 else (1, 2, 3)):
+              out.append({"name": "net-af%d-t%d-p%d" % (af, tl, pd), "src": "text.c", "defs": {"AF": af, "TLEN": tl, "BS": 64, "MODE": 2, "PDIG": pd}, "unwind": max(tl + 12, 19),
+                        "solver": "cadical", "shape": "addr/len text, addr %d chars, every prefix length with %d decimal digits" % (tl, pd),
                         "desc": "str_net_to_ss parses address and prefix length; default host prefix"})
     return out
